@@ -3659,25 +3659,13 @@ class Fused(Blockwise):
         # Always broadcast single-partition dependencies in Fused
         return dep.npartitions == 1
 
-    def _task(self, index):
-        graph = {self._name: (self.exprs[0]._name, index)}
-        for _expr in self.exprs:
-            if isinstance(_expr, Fused):
-                subgraph, name = _expr._task(index)[1:3]
-                graph.update(subgraph)
-                graph[(name, index)] = name
-            elif self._broadcast_dep(_expr):
-                # When _expr is being broadcasted, we only
-                # want to define a fused task for index 0
-                graph[(_expr._name, 0)] = _expr._task(0)
-            else:
-                graph[(_expr._name, index)] = _expr._task(index)
-
+    @functools.cached_property
+    def _original_dependencies(self):
         # The fused sub-graph refers to its external dependencies by the
         # names they had when the group was fused.  The dependency operands
         # may have been rewritten (and therefore renamed) since then, e.g.
-        # when an already optimized expression is optimized again, so bind
-        # the original keys positionally to the current dependencies.
+        # when an already optimized expression is optimized again; they
+        # correspond positionally to the current dependencies.
         local_names = {_expr._name for _expr in self.exprs}
         original_deps = [
             operand
@@ -3686,7 +3674,36 @@ class Fused(Blockwise):
             if operand._name not in local_names
         ]
         assert len(original_deps) == len(self.dependencies())
-        for i, dep in enumerate(original_deps):
+        return original_deps
+
+    def _subgraph(self, index):
+        """The tasks of the fused group, without its external dependencies"""
+        graph = {self._name: (self.exprs[0]._name, index)}
+        for _expr in self.exprs:
+            if isinstance(_expr, Fused):
+                graph.update(_expr._subgraph(index))
+                graph[(_expr._name, index)] = _expr._name
+                # The dependencies of a nested group are tasks or dependencies
+                # of this group: point the keys the nested group knows them by
+                # to their current keys, which this graph defines
+                for original, dep in zip(
+                    _expr._original_dependencies, _expr.dependencies()
+                ):
+                    key = _expr._blockwise_arg(dep, index)
+                    if _expr._blockwise_arg(original, index) != key:
+                        graph[_expr._blockwise_arg(original, index)] = key
+            elif self._broadcast_dep(_expr):
+                # When _expr is being broadcasted, we only
+                # want to define a fused task for index 0
+                graph[(_expr._name, 0)] = _expr._task(0)
+            else:
+                graph[(_expr._name, index)] = _expr._task(index)
+        return graph
+
+    def _task(self, index):
+        graph = self._subgraph(index)
+        # bind the original keys of the dependencies to the current dependencies
+        for i, dep in enumerate(self._original_dependencies):
             graph[self._blockwise_arg(dep, index)] = "_" + str(i)
 
         return (
